@@ -179,8 +179,8 @@ def register_cache(reg, stubs, world):
         if out.kind == 'exc':
             cn = out.exc.cname
             if cn == 'cfg.ConfigFilesPermissionDeniedError':
-                return [('permission-error-only-for-an-unreadable-file-that-needs-reading',
-                         z3.And(fs_exists(f), reload_, fs_eacces(f)))]
+                return [('permission-error-only-for-an-unreadable-file',
+                         z3.And(fs_exists(f), fs_eacces(f)))]
             return [False]
         r = out.value
         reloaded, data = V.titems(r)[0], V.titems(r)[1]
@@ -191,14 +191,16 @@ def register_cache(reg, stubs, world):
                 ('a-missing-file-reports-reloaded-with-an-empty-mapping', z3.Implies(z3.Not(fs_exists(f)), z3.And(
                     reloaded == TRUE, V.is_obj(data), V.is_dict(eng.val(s1, data)),
                     z3.Length(keys_of(V.m(eng.val(s1, data)))) == 0))),
-                ('rereads-exactly-when-forced-uncached-or-newer', z3.Implies(
-                    z3.And(fs_exists(f), z3.Not(fs_eacces(f))),
-                    z3.Implies(reload_, z3.And(reloaded == TRUE, data == V.str(fs_content(f)),
-                                               z3.Select(em1, z3.StringVal('data')) == V.str(fs_content(f)),
-                                               z3.Select(em1, z3.StringVal('mtime')) == V.float(fs_mtime(f)))))),
-                ('otherwise-serves-the-cached-text', z3.Implies(
-                    z3.And(fs_exists(f), z3.Not(reload_)),
-                    z3.And(reloaded == FALSE, data == z3.Select(em0, z3.StringVal('data')), e1 == e0,
+                ('rereads-whenever-forced-uncached-or-newer', z3.Implies(
+                    z3.And(fs_exists(f), z3.Not(fs_eacces(f)), reload_), reloaded == TRUE)),
+                ('a-reread-returns-and-caches-the-current-content', z3.Implies(
+                    z3.And(fs_exists(f), reloaded == TRUE),
+                    z3.And(data == V.str(fs_content(f)),
+                           z3.Select(em1, z3.StringVal('data')) == V.str(fs_content(f)),
+                           z3.Select(em1, z3.StringVal('mtime')) == V.float(fs_mtime(f))))),
+                ('otherwise-serves-the-cached-text-untouched', z3.Implies(
+                    z3.And(fs_exists(f), reloaded != TRUE),
+                    z3.And(reloaded == FALSE, z3.Not(reload_), data == z3.Select(em0, z3.StringVal('data')), e1 == e0,
                            eng.val(s1, e1) == eng.val(st, e0))))]
     reg.add(Contract('_cache_handler:read_cached_file', pre=rc_pre, post=rc_post,
                      raises=('cfg.ConfigFilesPermissionDeniedError',), modifies=('$val',), frame=lambda cx, f, o, n: [],
